@@ -12,7 +12,8 @@ EXTENDS ProcStream, TLC, Json
 CONSTANTS RunToCompletion,
           KeepHist,     \* FALSE = do not record the history (exhaustive / liveness runs)
           MC_Ns,        \* set of input counts
-          MC_Topos      \* set of topologies
+          MC_Topos,     \* set of topologies
+          MC_MaxFail    \* at most this many items have a failing `process` call
 
 \* topologies (cfg files cannot write tuples)
 G1   == <<1>>
@@ -48,14 +49,17 @@ MC_Arrive       == TimerOK /\ Arrive /\ H([a |-> "Arrive", x |-> nextIn])
 MC_Xfer(g)      == Xfer(g) /\ H([a |-> "Xfer", g |-> g, x |-> Head(out[g - 1])])
 MC_Yield        == Yield /\ H([a |-> "Yield", x |-> Head(out[NG])])
 MC_SelectInput(g) == SelectInput(g) /\ H([a |-> "Input", g |-> g, x |-> Head(chan[g]), ab |-> Aborted(g)])
-MC_BufDone(g)   == TimerOK /\ BufDone(g) /\ H([a |-> "BufDone", g |-> g, x |-> busy[FirstOf(g)]])
+MC_BufDone(g)   == TimerOK /\ BufDone(g) /\ H([a |-> IF Fails(FirstOf(g), busy[FirstOf(g)]) THEN "BufFail" ELSE "BufDone", g |-> g, x |-> busy[FirstOf(g)]])
 MC_Take(g, j)   == Take(g, j) /\ H([a |-> "Take", g |-> g, j |-> j, x |-> Head(q[j]), ab |-> Aborted(g)])
-MC_HandDone(g)  == TimerOK /\ HandDone(g) /\ H([a |-> "HandDone", g |-> g, l |-> hs[g].j + 1, x |-> hs[g].x])
+MC_HandDone(g)  == TimerOK /\ HandDone(g) /\ H([a |-> IF Fails(hs[g].j + 1, hs[g].x) THEN "HandFail" ELSE "HandDone", g |-> g, l |-> hs[g].j + 1, x |-> hs[g].x])
 MC_YieldDone(g) == YieldDone(g) /\ hist' = hist /\ Tie
 MC_Output(g)    == Output(g) /\ H([a |-> "Output", g |-> g, x |-> Head(q[LastOf(g)]), ab |-> Aborted(g)])
 MC_Stutter      == Stutter /\ UNCHANGED <<hist, ties>>
 
-MCInit == N \in MC_Ns /\ Groups \in MC_Topos /\ Init /\ hist = <<>> /\ ties = 0
+MCInit ==
+    /\ N \in MC_Ns /\ Groups \in MC_Topos
+    /\ failAt \in {f \in [1..N -> 0..NL] : Cardinality({x \in 1..N : f[x] # 0}) <= MC_MaxFail}
+    /\ Init /\ hist = <<>> /\ ties = 0
 \* one named disjunct per action (per-action coverage = vacuity guard)
 A_Xfer        == \E g \in 1..NG : MC_Xfer(g)
 A_SelectInput == \E g \in 1..NG : MC_SelectInput(g)
@@ -76,7 +80,7 @@ MCLiveSpec == MCInit /\ [][MCNext]_mcvars /\ WF_mcvars(MCProgress)
 NoHistView == vars
 
 Export ==
-    Quiet => PrintT(<<"REPLAY", ToJson([kind |-> "procstream", groups |-> Groups, n |-> N,
+    Quiet => PrintT(<<"REPLAY", ToJson([kind |-> "procstream", groups |-> Groups, n |-> N, fail |-> failAt,
                                         steps |-> hist, ties |-> ties,
                                         yielded |-> yielded, lost |-> lost])>>)
 =============================================================================
